@@ -10,6 +10,7 @@ pub use unordered_receiver::{
 
 /// Verification harness (child module: reaches the private buffer types). `--cfg ipa_verif` only.
 #[cfg(all(test, ipa_verif))]
+#[allow(warnings, clippy::all, clippy::pedantic)]
 pub(crate) mod verif_h2 {
     include!(concat!(env!("IPA_VERIF_DIR"), "/harness/h2_buffers.rs"));
 }
